@@ -11,7 +11,7 @@ from typing import TYPE_CHECKING
 
 # Third Party Imports
 import ray
-from numpy import around, seterr
+from numpy import floor, seterr
 from sqlalchemy.orm import Query
 
 # Local Imports
@@ -188,7 +188,10 @@ class Scenario:
             ValueError: raised if a `target_time` given is less than :attr:`.ScenarioClock.dt_step`
         """
         target_scenario_time = target_time.convertToScenarioTime(self.clock.julian_date_start)
-        rounded_delta = around(target_scenario_time - self.clock.time)
+        # [NOTE]: Whole seconds that fit into the requested span. Only the noise of the Julian date conversion
+        #   (~4e-5 sec) is absorbed: rounding to the nearest second would overshoot a target that lies less
+        #   than half a second before a step boundary.
+        rounded_delta = floor(target_scenario_time - self.clock.time + 1.0e-3)
 
         self.logger.info(f"Current model time: {self.clock.julian_date_epoch}.")
         self.logger.info(
